@@ -32,9 +32,14 @@ class Thrown(Undecided):
 class Stream:
     """a constant byte stream standing for a FILE* / reader over known contents"""
 
-    def __init__(self, data):
+    def __init__(self, data, plan=None):
         self.data = bytes(data)
         self.pos = 0
+        self.plan = plan          # read(): successive maximum chunk sizes (cyclic); None = as much as asked
+        self.nreads = 0
+        self.eof = False
+        self.fail_at = None       # index of the read()/fgets() call that fails (returns -1 / NULL without EOF)
+        self.ncalls = 0
 
 
 class Rec:
@@ -84,10 +89,11 @@ class Lit:
 
 
 class Str:
-    __slots__ = ('b',)
+    __slots__ = ('b', 'fixed')
 
     def __init__(self, b=b''):
         self.b = bytearray(b)
+        self.fixed = False        # True for a built-in character array (fixed extent, C-string reads)
 
 
 class Lam:
@@ -283,6 +289,41 @@ class PEval:
                         if e.get('kind') == 'CXXRecordDecl' and e.get('name') and e.get('completeDefinition'):
                             self._records.setdefault(e['name'], e.get('tagUsed'))
         return self._records.get(nm)
+
+    def buf_target(self, n, env, depth):
+        """(Str, offset) designated by a writable buffer argument: X.data(), X.data() + k, &X[k]"""
+        n = strip(n)
+        while n is not None and n.get('kind') in ('ImplicitCastExpr', 'CStyleCastExpr', 'CXXStaticCastExpr', 'CXXReinterpretCastExpr', 'ParenExpr') and kids(n):
+            n = strip(kids(n)[0])
+        if n is None:
+            return None
+        k = n.get('kind')
+        if k == 'CXXMemberCallExpr' and call_name(n) == 'data':
+            o = self.ev(member_call_object(n), env, depth)
+            if isinstance(o, Str):
+                return o, 0
+        if k == 'BinaryOperator' and n.get('opcode') == '+':
+            a = self.buf_target(n['inner'][0], env, depth)
+            off = self.ev(n['inner'][1], env, depth)
+            if a is not None and isinstance(off, int):
+                return a[0], a[1] + off
+        if k == 'UnaryOperator' and n.get('opcode') == '&':
+            e = strip(n['inner'][0])
+            if e.get('kind') == 'CXXOperatorCallExpr' and call_name(e) == 'operator[]':
+                o = self.ev(kids(e)[1], env, depth)
+                i = self.ev(kids(e)[2], env, depth)
+                if isinstance(o, Str) and isinstance(i, int):
+                    return o, i
+        if k == 'DeclRefExpr':
+            try:
+                v = self.lookup(env, (n.get('referencedDecl') or {}).get('id'))
+            except KeyError:
+                v = None
+            if isinstance(v, tuple) and v and v[0] == 'bufptr':
+                return v[1], v[2]
+            if isinstance(v, Str) and getattr(v, 'fixed', False):
+                return v, 0
+        return None
 
     def wrap(self, v, t):
         if not isinstance(v, int) or isinstance(v, bool):
@@ -788,6 +829,18 @@ class PEval:
                 if isinstance(i, int) and 0 <= i < len(obj.items):
                     return obj.items[i]
                 raise Fault('vector index %r outside its %d elements' % (i, len(obj.items)))
+            if isinstance(obj, tuple) and obj and obj[0] == 'viter':
+                if name in ('operator*', 'operator->'):
+                    if 0 <= obj[2] < len(obj[1].items):
+                        return obj[1].items[obj[2]]
+                    raise Fault('dereference of an iterator outside the container')
+                if name in ('operator++', 'operator--'):
+                    new = ('viter', obj[1], obj[2] + (1 if name == 'operator++' else -1))
+                    self.assign(ops[0], new, env, depth)
+                    return obj if len(ops) > 1 else new
+                if name in ('operator!=', 'operator=='):
+                    o2 = self.ev(ops[1], env, depth)
+                    return 1 if ((obj[2] == o2[2]) == (name == 'operator==')) else 0
             if isinstance(obj, tuple) and obj and obj[0] == 'iter':
                 if name == 'operator*':
                     return self.wrap(obj[1].b[obj[2]], dtype(n))
@@ -837,7 +890,13 @@ class PEval:
                     if name in ('push_back', 'emplace_back') and len(vals) == 1:
                         v_ = vals[0]
                         obj.items.append(Str(v_.b) if isinstance(v_, Str) else Str(v_.cstr()) if isinstance(v_, Lit) and 'basic_string' in (dtype(n) or '') + (dtype(objn) or '') else v_)
-                        return None
+                        return obj.items[-1]
+                    if name == 'emplace_back' and len(vals) == 2 and 'basic_string' in (dtype(objn) or '') and isinstance(vals[0], int) and isinstance(vals[1], int):
+                        obj.items.append(Str(bytes([vals[1] & 0xFF]) * vals[0]))
+                        return obj.items[-1]
+                    if name == 'emplace_back' and not vals and 'basic_string' in (dtype(objn) or ''):
+                        obj.items.append(Str())
+                        return obj.items[-1]
                     if name == 'pop_back':
                         if not obj.items:
                             raise Fault('pop_back on an empty vector')
@@ -859,8 +918,12 @@ class PEval:
                         if 0 <= vals[0] < len(obj.items):
                             return obj.items[vals[0]]
                         raise Thrown(n, 'vector::at out of range')
-                    if name == 'reserve':
+                    if name in ('reserve', 'shrink_to_fit'):
                         return None
+                    if name in ('begin', 'cbegin'):
+                        return ('viter', obj, 0)
+                    if name in ('end', 'cend'):
+                        return ('viter', obj, len(obj.items))
                     raise Undecided('std::vector::%s' % name)
                 if isinstance(obj, Lam) and name == 'operator()':
                     return self.call_lambda(obj, args, env, depth)
@@ -953,6 +1016,74 @@ class PEval:
                         raise Thrown(n, '%s of text without a number (invalid_argument)' % name)
                     return 0.0
                 return float(m_.group(0))
+        if name == 'fgets' and len(args) == 3:
+            st = self.ev(args[2], env, depth)
+            tgt = self.buf_target(args[0], env, depth)
+            nmax = self.ev(args[1], env, depth)
+            if isinstance(st, Stream) and tgt is not None and isinstance(nmax, int):
+                buf, off = tgt
+                if nmax <= 0:
+                    return None
+                st.ncalls += 1
+                if st.fail_at is not None and st.ncalls - 1 == st.fail_at:
+                    return None           # error: NULL, end-of-file indicator not set
+                if off + nmax > len(buf.b):
+                    raise Fault('fgets may store %d bytes at offset %d of a %d-byte buffer' % (nmax, off, len(buf.b)))
+                if st.pos >= len(st.data):
+                    st.eof = True
+                    return None
+                j = st.data.find(b'\n', st.pos, st.pos + nmax - 1)
+                end = min(len(st.data), st.pos + nmax - 1) if j < 0 else j + 1
+                chunk = st.data[st.pos:end]
+                if end >= len(st.data) and j < 0 and len(chunk) < nmax - 1:
+                    st.eof = True
+                st.pos = end
+                buf.b[off:off + len(chunk) + 1] = chunk + b'\0'
+                return ('bufptr', buf, off)
+        if name == '__errno_location' and not args:
+            if not hasattr(self, 'genv'):
+                self.genv = {'errno': 0}
+            return Ref(self.genv, 'errno')
+        if name == 'feof' and len(args) == 1:
+            st = self.ev(args[0], env, depth)
+            if isinstance(st, Stream):
+                return 1 if getattr(st, 'eof', False) else 0
+        if name == 'ferror' and len(args) == 1:
+            return 0
+        if name == 'fileno' and len(args) == 1:
+            return 3
+        if name in ('read', 'fread') and len(args) in (3, 4):
+            st = self.ev(args[0] if name == 'read' else args[3], env, depth)
+            if isinstance(st, Stream):
+                tgt = self.buf_target(args[1] if name == 'read' else args[0], env, depth)
+                cnt = self.ev(args[2], env, depth) if name == 'read' else None
+                if name == 'fread':
+                    a1, a2 = self.ev(args[1], env, depth), self.ev(args[2], env, depth)
+                    cnt = a1 * a2 if isinstance(a1, int) and isinstance(a2, int) and a1 == 1 else None
+                if tgt is None or not isinstance(cnt, int):
+                    raise Undecided('%s into an unmodelled buffer' % name)
+                buf, off = tgt
+                if off + cnt > len(buf.b):
+                    raise Fault('%s may store %d bytes at offset %d of a %d-byte buffer' % (name, cnt, off, len(buf.b)))
+                st.ncalls += 1
+                if name == 'read' and st.fail_at is not None and st.ncalls - 1 == st.fail_at:
+                    if not hasattr(self, 'genv'):
+                        self.genv = {'errno': 0}
+                    self.genv['errno'] = getattr(st, 'fail_errno', 5)      # EIO unless the plan says EINTR (4)
+                    return -1
+                avail = len(st.data) - st.pos
+                take = min(cnt, avail)
+                if name == 'read':
+                    plan = getattr(st, 'plan', None)
+                    if plan and take > 0:
+                        take = max(1, min(take, plan[st.nreads % len(plan)]))
+                    st.nreads += 1
+                if take < cnt and name == 'fread':
+                    st.eof = True
+                buf.b[off:off + take] = st.data[st.pos:st.pos + take]
+                st.pos += take
+                self.reads = getattr(self, 'reads', []) + [take]
+                return take
         if name in ('fgetc', 'getc') and len(args) == 1:
             st = self.ev(args[0], env, depth)
             if isinstance(st, Stream):
@@ -972,6 +1103,11 @@ class PEval:
             v = self.ev(args[0], env, depth)
             if isinstance(v, Lit):
                 return len(v.cstr())
+            if isinstance(v, Str) and getattr(v, 'fixed', False):
+                j_ = bytes(v.b).find(b'\0')
+                if j_ < 0:
+                    raise Fault('strlen of a character array without a terminator')
+                return j_
         if name in ('strchr', 'memchr'):
             s = self.ev(args[0], env, depth)
             c = self.ev(args[1], env, depth)
@@ -1121,6 +1257,10 @@ class PEval:
                 self.str_append(s, vals[0])
             elif len(vals) == 2 and isinstance(vals[0], Lit) and isinstance(vals[1], int):
                 s.b += bytes(vals[0].data[vals[0].off:vals[0].off + vals[1]])
+            elif len(vals) == 2 and isinstance(vals[0], Str) and isinstance(vals[1], int) and getattr(vals[0], 'fixed', False):
+                if vals[1] > len(vals[0].b):
+                    raise Fault('append of %d bytes from a %d-byte array' % (vals[1], len(vals[0].b)))
+                s.b += bytes(vals[0].b[:vals[1]])
             elif len(vals) == 2 and isinstance(vals[0], int) and isinstance(vals[1], int):
                 s.b += bytes([vals[1] & 0xFF]) * vals[0]
             else:
@@ -1219,8 +1359,13 @@ class PEval:
                         continue
                     init = [c for c in kids(vd) if c.get('kind') and not c['kind'].endswith('Attr')]
                     t = dtype(vd) or ''
-                    if init and t.replace('const ', '').startswith('std::vector<') and strip(init[-1]).get('kind') == 'CXXConstructExpr' and not [c for c in kids(strip(init[-1])) if c.get('kind')]:
+                    if init and t.replace('const ', '').startswith(('std::vector<', 'std::deque<')) and strip(init[-1]).get('kind') == 'CXXConstructExpr' and not [c for c in kids(strip(init[-1])) if c.get('kind')]:
                         v = VecL()
+                    elif init and t.replace('const ', '').startswith(('std::vector<', 'std::deque<')) and strip(init[-1]).get('kind') == 'CXXConstructExpr' and len([c for c in kids(strip(init[-1])) if c.get('kind') and c.get('kind') != 'CXXDefaultArgExpr']) == 2:
+                        a_ = [self.ev(c, env, depth) for c in kids(strip(init[-1])) if c.get('kind') and c.get('kind') != 'CXXDefaultArgExpr']
+                        if not isinstance(a_[0], int) or a_[0] > 1 << 20:
+                            raise Undecided('vector(n, value) form')
+                        v = VecL([Str(a_[1].b) if isinstance(a_[1], Str) else a_[1] for _ in range(a_[0])])
                     elif init and 'basic_string' not in t and self.record_kind(t) is not None and strip(init[-1]).get('kind') == 'CXXConstructExpr' and not [c for c in kids(strip(init[-1])) if c.get('kind')]:
                         v = Rec(self.record_kind(t) == 'union')
                     elif init:
@@ -1229,8 +1374,11 @@ class PEval:
                             v = self.wrap(v, t)
                         if isinstance(v, Str) and strip(init[-1]).get('kind') not in ('CXXConstructExpr', 'CXXTemporaryObjectExpr', 'CallExpr', 'CXXMemberCallExpr', 'CXXOperatorCallExpr', 'ExprWithCleanups') and not (qtype(vd) or '').rstrip().endswith('&'):
                             v = Str(v.b)
-                    elif t.replace('const ', '').startswith('std::vector<'):
+                    elif t.replace('const ', '').startswith(('std::vector<', 'std::deque<')):
                         v = VecL()
+                    elif re.match(r'^(?:unsigned |signed )?char\[\d+\]$', t) or re.match(r'^u?int8_t\[\d+\]$', t):
+                        v = Str(bytes(int(re.search(r'\[(\d+)\]', t).group(1))))
+                        v.fixed = True
                     elif 'basic_string' in t:
                         v = Str()
                     elif self.record_kind(t) is not None:
@@ -1329,12 +1477,12 @@ class PEval:
                     for vd in kids(x):
                         if vd.get('kind') == 'VarDecl' and (vd.get('name') or '').startswith('__range') and kids(vd):
                             rng = self.ev(kids(vd)[-1], env, depth)
-            if var is None or not isinstance(rng, (Str, Lit)):
+            if var is None or not isinstance(rng, (Str, Lit, VecL)):
                 raise Undecided('range-for over a non-constant range')
-            items = list(rng.b) if isinstance(rng, Str) else list(rng.data[rng.off:])
+            items = list(rng.items) if isinstance(rng, VecL) else list(rng.b) if isinstance(rng, Str) else list(rng.data[rng.off:])
             body = loop_body(s)
             for it in items:
-                frame = {'__parent__': env, var['id']: self.wrap(it, dtype(var))}
+                frame = {'__parent__': env, var['id']: self.wrap(it, dtype(var)) if isinstance(it, int) else it}
                 try:
                     self.run([body], frame, depth)
                 except _Continue:
